@@ -11,7 +11,7 @@
    samtools bedcov was measured to count); C09_spanned_is_aligned /
    C09_pileup_counts_aligned_bases show they coincide on reads without D/N. *)
 From CNV Require Import Base.Prelude Base.Str Gen.Params Gen.CoverageDefaults
-  Model.Coverage Spec.Coverage Proofs.Coverage.
+  Model.Coverage Spec.Coverage Proofs.Coverage Gen.FnCoverage Proofs.FnCoverage.
 
 (* the generated constants the statements below rely on *)
 Example C09_null_log2_is_minus_20 : NULL_LOG2_COVERAGE = (-20 # 1)%Q := eq_refl.
@@ -125,3 +125,14 @@ Proof. vm_compute. reflexivity. Qed.
 Example C09_ex_chunks :
   chunks 2 [1; 2; 3; 4; 5] = [[1; 2]; [3; 4]; [5]].
 Proof. reflexivity. Qed.
+
+(* ---- source tie: the read filter of the count algorithm, translated from the Python
+   source of coverage.region_depth_count.filter_read on every run (Gen/FnCoverage.v), is the
+   model's `counted`, pysam's is_duplicate / is_secondary / is_unmapped / is_qcfail being the
+   SAM flag bits 0x400 / 0x100 / 0x4 / 0x200. *)
+Theorem C09_source_filter_read :
+  forall cut r,
+    fn_filter_read (flag_bit (r_flag r) 1024) (flag_bit (r_flag r) 256) (flag_bit (r_flag r) 4)
+                   (flag_bit (r_flag r) 512) (r_mapq r) cut
+    = counted cut r.
+Proof. exact fn_filter_read_eq. Qed.
